@@ -38,3 +38,12 @@ package formats
 //@   loop 2 invariant items: 0 <= $k && $k <= len(value.List) && jkind(arr) == 6 && jlen(arr) == $k && forall(j, 0, $k, jenc(jelem(arr, j), value.List[j], deref(t.List.Element)))
 //@   loop 3 invariant fields: 0 <= $k && $k <= len(value.Struct) && jkind(arr) == 7 && forall(j, 0, $k, jhas(arr, t.Struct.Fields[j].Name) && jenc(jfield(arr, t.Struct.Fields[j].Name), value.Struct[j], t.Struct.Fields[j].Type))
 //@   loop 4 invariant elems: 0 <= $k && $k <= len(value.Tuple) && jkind(arr) == 6 && jlen(arr) == $k && forall(j, 0, $k, jenc(jelem(arr, j), value.Tuple[j], t.Tuple.Elements[j]))
+
+// C25/C06 JSON lines: one object per row holding, for every schema field, the field's name with the encoding of the
+// row's value at that position (jenc, under the field's type) — field names of a schema are distinct; the line is
+// handed to the writer exactly once, and a failing write is returned.
+//@ func (*JSONFormatter).Write
+//@   requires row: t != nil && t.arena != nil && len(values) == len(t.fields) && forall(j, 0, len(t.fields), fits(values[j], t.fields[j].Type)) && forall(a, 0, len(t.fields), forall(b, a + 1, len(t.fields), t.fields[a].Name != t.fields[b].Name))
+//@   loop 1 invariant fields: 0 <= $k && $k <= len(t.fields) && jkind(obj) == 7 && forall(j, 0, $k, jhas(obj, t.fields[j].Name) && jenc(jfield(obj, t.fields[j].Name), values[j], t.fields[j].Type))
+//@   ensures written: calls(Write) == old(calls(Write)) + 1
+//@   ensures writeerr: lastres(Write) != nil ==> result != nil
